@@ -315,6 +315,11 @@ static inline bool mi_atomic_casi64_strong_acq_rel(volatile _Atomic(int64_t*)p, 
 
 #endif
 
+// verification hooks (off unless MI_VERIF_HOOKS names a header): redefine the atomic operations as scheduling points
+#if defined(MI_VERIF_HOOKS)
+#include MI_VERIF_HOOKS
+#endif
+
 
 // Atomically add a signed value; returns the previous value.
 static inline intptr_t mi_atomic_addi(_Atomic(intptr_t)*p, intptr_t add) {
@@ -550,5 +555,11 @@ static inline void mi_lock_done(mi_lock_t* lock) {
 
 #endif
 
+
+// verification hooks, second inclusion: yield and lock acquisition as scheduling points
+#if defined(MI_VERIF_HOOKS)
+#define MI_VERIF_HOOKS_END 1
+#include MI_VERIF_HOOKS
+#endif
 
 #endif // __MIMALLOC_ATOMIC_H
